@@ -87,3 +87,35 @@ Example objectz_negative_skip_refuted :
   objectz_query_legacy FTrue [] (pg (Some (-2)) (Some 3)) ex_objs = (map s [[97]], 5) /\
   objectz_query_legacy FTrue [] (pg (Some (-2)) (Some 3)) ex_objs <> boltz_query FTrue [] (pg (Some (-2)) (Some 3)) ex_rows.
 Proof. vm_compute. split; [reflexivity | discriminate]. Qed.
+
+(* ---- instants over the whole range of time.Time ------------------------------------------------------ *)
+(* tokens with a "never expires" sentinel (a: 9999-12-31), the year 2400 (e), contemporary dates (b: 2024, d: 2030,
+   f: 1999) and an unset field (c).  Instants are (seconds, nanoseconds) over Z: nothing wraps, the sentinel is last
+   ascending and first descending, null first ascending. *)
+Definition far_rows : list row := [
+  mk 97  CNull CNull CNull CNull (CTime 253402214400 0);
+  mk 98  CNull CNull CNull CNull (CTime 1704067200 0);
+  mk 99  CNull CNull CNull CNull CNull;
+  mk 100 CNull CNull CNull CNull (CTime 1893456000 0);
+  mk 101 CNull CNull CNull CNull (CTime 13574649600 0);
+  mk 102 CNull CNull CNull CNull (CTime 946598400 0)].
+Definition far_objs : list row := rev far_rows.
+
+Example ex_far_future_order :
+  objectz_query FTrue [by_at true] (pg None None) far_objs = (map s [[99]; [102]; [98]; [100]; [101]; [97]], 6) /\
+  objectz_query FTrue [by_at false] (pg None (Some 2)) far_objs = (map s [[97]; [101]], 6) /\
+  objectz_query (FAtom (AIsNull c_at true)) [by_at true] (pg (Some 1) (Some 2)) far_objs = (map s [[98]; [100]], 5) /\
+  objectz_query FTrue [by_at true] (pg None None) far_objs = boltz_query FTrue [by_at true] (pg None None) far_rows.
+Proof. vm_compute. repeat split; reflexivity. Qed.
+
+(* why the correspondence run holds instants outside 1678..2262 (harness c19ext.go): a comparator on the int64
+   nanosecond count of time.Time.UnixNano orders the sentinel before 2024, and the instant one nanosecond after
+   the last representable one before everything *)
+Definition unixnano (t : Z * N) : Z := wrap64 (fst t * 1000000000 + Z.of_N (snd t)).
+Definition unixnano_lt (x y : Z * N) : bool := Z.ltb (unixnano x) (unixnano y).
+Example unixnano_comparator_refuted :
+  time_lt (1704067200, 0%N) (253402214400, 0%N) = true /\ unixnano_lt (1704067200, 0%N) (253402214400, 0%N) = false /\
+  unixnano_lt (253402214400, 0%N) (1704067200, 0%N) = true /\
+  time_lt (9223372036, 854775807%N) (9223372036, 854775808%N) = true /\
+  unixnano_lt (9223372036, 854775808%N) (0, 0%N) = true.
+Proof. vm_compute. repeat split; reflexivity. Qed.
